@@ -348,7 +348,7 @@ def make_task_class(ts, module_name, g):
     for p in ts.get('params', []):
         kw = {}
         if 'default' in p:
-            kw['default'] = p['default']
+            kw['default'] = Path(p['default']) if p.get('default_is_path') else p['default']
         if p.get('name_in_config'):
             kw['name_in_config'] = p['name_in_config']
         if p.get('dtype'):
